@@ -24,7 +24,7 @@ SPEC = {
              'once each, no startable order left at a clock advance; a case is one stream; non-trivial = an order '
              'overtook an earlier one or waited for its target'),
     'floors': {'quick': {'orders_completed': 5000, 'overtakes': 300, 'waited_for_target': 300,
-                         'duplicates_rejected': 300, 'clock_advances_checked': 5000},
+                         'duplicates_rejected': 300, 'clock_advances_checked': 5000, 'line_orders_completed': 300},
                'thorough': {'orders_completed': 150000, 'overtakes': 9000, 'waited_for_target': 9000,
                             'duplicates_rejected': 9000, 'clock_advances_checked': 150000}},
     'assumptions': ['hooks that re-request use tags of their own, so the "is the finishing order still in progress '
@@ -333,7 +333,16 @@ def run(sh):
     for i in sh.share(n):
         rng = random.Random(core.stable_int(sh.seed, 'C12', i))
         run_case(sh, gen_case(rng, pol[i % 4]))
+    # targets that are real processors in running lines (default hooks = shutdown / restore)
+    from .. import engine_line
+    engine_line.run_profile(sh, 'C12', 'faults', 200 if sh.tier == 'quick' else 4000, ('maint',),
+                            nontrivial=lambda f: f.get('orders_completed', 0) > 0, prefix='line_',
+                            overrides={'p_maintainer': 1.0})
 
 
 def replay(sh, v):
-    run_case(sh, v['case'])
+    if v['case'].get('engine') == 'line':
+        from .. import engine_line
+        engine_line.replay_case(sh, 'C12', v['case'], ('maint',))
+    else:
+        run_case(sh, v['case'])
